@@ -1,4 +1,687 @@
-/- Helper lemmas for LC/Props/C03WF.lean. TO BE PROVED (no sorry may remain). -/
+/- Helper lemmas for LC/Props/C03WF.lean. -/
 import LC.Model.V2Match
+
+namespace LC.V2Match.WFP
+open LC.V2Match LC.Score
+
+/-! ### generic: sortBy is a permutation (membership), foldlM over Except -/
+
+theorem mem_insertSorted {α : Type} (less : α → α → Bool) (x a : α) (l : List α) :
+    a ∈ insertSorted less x l ↔ a = x ∨ a ∈ l := by
+  induction l with
+  | nil => simp [insertSorted]
+  | cons y ys ih =>
+    unfold insertSorted
+    split
+    · simp
+    · simp only [List.mem_cons, ih]
+      constructor
+      · rintro (h | h | h)
+        · exact Or.inr (Or.inl h)
+        · exact Or.inl h
+        · exact Or.inr (Or.inr h)
+      · rintro (h | h | h)
+        · exact Or.inr (Or.inl h)
+        · exact Or.inl h
+        · exact Or.inr (Or.inr h)
+
+theorem sortBy_cons {α : Type} (less : α → α → Bool) (x : α) (l : List α) :
+    sortBy less (x :: l) = insertSorted less x (sortBy less l) := rfl
+
+theorem mem_sortBy {α : Type} (less : α → α → Bool) (a : α) (l : List α) :
+    a ∈ sortBy less l ↔ a ∈ l := by
+  induction l with
+  | nil => simp [sortBy]
+  | cons y ys ih => rw [sortBy_cons, mem_insertSorted, ih]; simp
+
+theorem foldlM_inv {ε α β : Type} (f : β → α → Except ε β) (Inv : β → Prop) :
+    ∀ (l : List α) (init r : β),
+      (∀ acc x acc', x ∈ l → Inv acc → f acc x = .ok acc' → Inv acc') →
+      Inv init → l.foldlM f init = .ok r → Inv r := by
+  intro l
+  induction l with
+  | nil =>
+    intro init r _ hi h
+    have : init = r := by simpa [List.foldlM_nil, pure, Except.pure] using h
+    exact this ▸ hi
+  | cons x xs ih =>
+    intro init r hstep hi h
+    rw [List.foldlM_cons] at h
+    cases hfx : f init x with
+    | error e => rw [hfx] at h; simp [bind, Except.bind] at h
+    | ok b =>
+      rw [hfx] at h
+      simp only [bind, Except.bind] at h
+      exact ih b r (fun acc y acc' hy => hstep acc y acc' (List.mem_cons_of_mem _ hy))
+        (hstep init x b List.mem_cons_self hi hfx) h
+
+theorem foldlM_ne {ε α β : Type} (f : β → α → Except ε β) (Inv : β → Prop) (P : ε → Prop) :
+    ∀ (l : List α) (init : β),
+      (∀ acc x, x ∈ l → Inv acc → (∀ e, f acc x = .error e → ¬ P e) ∧
+        (∀ acc', f acc x = .ok acc' → Inv acc')) →
+      Inv init → ∀ e, l.foldlM f init = .error e → ¬ P e := by
+  intro l
+  induction l with
+  | nil =>
+    intro init _ _ e h
+    simp [List.foldlM_nil, pure, Except.pure] at h
+  | cons x xs ih =>
+    intro init hstep hi e h
+    rw [List.foldlM_cons] at h
+    cases hfx : f init x with
+    | error e' =>
+      rw [hfx] at h
+      simp only [bind, Except.bind] at h
+      cases h
+      exact (hstep init x List.mem_cons_self hi).1 _ hfx
+    | ok b =>
+      rw [hfx] at h
+      simp only [bind, Except.bind] at h
+      exact ih b (fun acc y hy => hstep acc y (List.mem_cons_of_mem _ hy))
+        ((hstep init x List.mem_cons_self hi).2 b hfx) e h
+
+/-! ### docCandidates: what is appended -/
+
+/-- the per-document part of `WFMatch` -/
+def DocOK {C : Type} (N : NumEnv C) (target : Array IdTok) (p : PDoc) (m : Match C) : Prop :=
+  N.geThr m.conf = true ∧ 0 ≤ m.startTok ∧ m.startTok ≤ m.endTok ∧ m.endTok < (target.size : Int) ∧
+    (target[m.startTok.toNat]?).map (·.line) = some m.startLine ∧
+    (target[m.endTok.toNat]?).map (·.line) = some m.endLine ∧
+    p.doc.cat = m.matchType ∧ p.doc.name = m.name ∧ p.doc.variant = m.variant
+
+theorem docCandidates_ok {C : Type} (N : NumEnv C) (wordOf : Nat → Text) (isDigitRune : Nat → Bool)
+    (decode : Text → List Nat) (induced : List (Text × List Text))
+    (diffOf : KDoc → Nat → Nat → Option (List (Diff Nat)))
+    (target : Array IdTok) (th : List Nat) (qt : Nat) (p : PDoc) (ms : List (Match C))
+    (h : docCandidates N wordOf isDigitRune decode induced diffOf target th qt p = .ok ms) :
+    ∀ m ∈ ms, DocOK N target p m := by
+  unfold docCandidates at h
+  split at h
+  · cases h
+  · rename_i fr _
+    refine foldlM_inv _ (fun acc => ∀ m ∈ acc, DocOK N target p m) fr [] ms ?_ (by simp) h
+    intro acc x acc' _ hacc hf
+    simp only at hf
+    split at hf
+    · cases hf
+    · split at hf
+      · rename_i hg
+        split at hf
+        · rename_i hb
+          cases hf
+          intro m hm
+          rcases List.mem_append.1 hm with hm | hm
+          · exact hacc m hm
+          · simp only [List.mem_singleton] at hm
+            subst hm
+            obtain ⟨h1, h2, h3, h4⟩ := hb
+            refine ⟨hg.1, h1, ?_, ?_, ?_, ?_, rfl, rfl, rfl⟩
+            · have := hg.2; simp only; omega
+            · simp only; omega
+            · simp only [Array.getElem?_eq_getElem h2, Option.map_some]
+            · simp only [Array.getElem?_eq_getElem h4, Option.map_some]
+        · cases hf
+      · cases hf
+        exact hacc
+
+/-! ### the shape of `matchModel` -/
+
+def firstPass {C : Type} (N : NumEnv C) (cntT : Nat → Nat) (docs : List PDoc) : List PDoc :=
+  docs.filter (fun p =>
+    let s := tokenSimWith cntT p.cnt p.ks
+    N.simGE s.1 s.2)
+
+def crMatches {C : Type} (N : NumEnv C) (copyrights : List Nat) : List (Match C) :=
+  copyrights.map (fun l =>
+      { name := "Copyright", conf := N.confOne, matchType := "Copyright", variant := "",
+        startLine := l, endLine := l, startTok := 0, endTok := 0 })
+
+def candFold {C : Type} (N : NumEnv C) (crc : Text → Nat) (wordOf : Nat → Text)
+    (isDigitRune : Nat → Bool) (decode : Text → List Nat) (induced : List (Text × List Text))
+    (diffOf : KDoc → Nat → Nat → Option (List (Diff Nat)))
+    (cntT : Nat → Nat) (docs : List PDoc) (target : Array IdTok) (copyrights : List Nat) :
+    Except (Outcome C) (List (Match C)) :=
+  let tids := target.toList.map (·.id)
+  let qt := effQ N.q tids.length
+  let th := hashes crc wordOf qt tids
+  (firstPass N cntT docs).foldlM (fun (acc : List (Match C)) p =>
+      match docCandidates N wordOf isDigitRune decode induced diffOf target th qt p with
+      | Except.ok ms => Except.ok (acc ++ ms)
+      | Except.error e => Except.error e) (crMatches N copyrights)
+
+def outOf {C : Type} (N : NumEnv C) (cands : List (Match C)) : List (Match C) :=
+  let sorted := sortBy (matchLess N) cands
+  (sorted.zip (retainPass N sorted)).filterMap (fun (p : Match C × Bool) => if p.2 then some p.1 else none)
+
+theorem matchModel_eq {C : Type} (N : NumEnv C) (crc : Text → Nat) (wordOf : Nat → Text)
+    (isDigitRune : Nat → Bool) (decode : Text → List Nat) (induced : List (Text × List Text))
+    (diffOf : KDoc → Nat → Nat → Option (List (Diff Nat)))
+    (cntT : Nat → Nat) (docs : List PDoc) (target : Array IdTok) (copyrights : List Nat) :
+    matchModel N crc wordOf isDigitRune decode induced diffOf cntT docs target copyrights =
+      if firstPass N cntT docs = [] then .ok { ms := [], totalInputLines := 0 }
+      else match candFold N crc wordOf isDigitRune decode induced diffOf cntT docs target copyrights with
+        | .error e => e
+        | .ok cands =>
+          match target.back? with
+          | none => .ok { ms := outOf N cands, totalInputLines := 0 }
+          | some t => .ok { ms := outOf N cands, totalInputLines := t.line } := by
+  rfl
+
+theorem candFold_ok {C : Type} (N : NumEnv C) (crc : Text → Nat) (wordOf : Nat → Text)
+    (isDigitRune : Nat → Bool) (decode : Text → List Nat) (induced : List (Text × List Text))
+    (diffOf : KDoc → Nat → Nat → Option (List (Diff Nat)))
+    (cntT : Nat → Nat) (docs : List PDoc) (target : Array IdTok) (crs : List Nat)
+    (cands : List (Match C))
+    (h : candFold N crc wordOf isDigitRune decode induced diffOf cntT docs target crs = .ok cands) :
+    ∀ m ∈ cands, WFMatch N docs target crs m := by
+  unfold candFold at h
+  refine foldlM_inv _ (fun acc => ∀ m ∈ acc, WFMatch N docs target crs m) _ _ _ ?_ ?_ h
+  · intro acc p acc' hp hacc hf
+    split at hf
+    · rename_i ms hdc
+      cases hf
+      intro m hm
+      rcases List.mem_append.1 hm with hm | hm
+      · exact hacc m hm
+      · have hd := docCandidates_ok _ _ _ _ _ _ _ _ _ _ _ hdc m hm
+        obtain ⟨h1, h2, h3, h4, h5, h6, h7, h8, h9⟩ := hd
+        have hpd : p ∈ docs := (List.mem_filter.1 hp).1
+        exact Or.inr ⟨h1, h2, h3, h4, h5, h6, p, hpd, h7, h8, h9⟩
+    · cases hf
+  · intro m hm
+    simp only [crMatches, List.mem_map] at hm
+    obtain ⟨l, hl, rfl⟩ := hm
+    exact Or.inl ⟨rfl, rfl, rfl, rfl, hl⟩
+
+theorem docCandidates_err_not_ok {C : Type} (N : NumEnv C) (wordOf : Nat → Text) (isDigitRune : Nat → Bool)
+    (decode : Text → List Nat) (induced : List (Text × List Text))
+    (diffOf : KDoc → Nat → Nat → Option (List (Diff Nat)))
+    (target : Array IdTok) (th : List Nat) (qt : Nat) (p : PDoc) (e : Outcome C)
+    (h : docCandidates N wordOf isDigitRune decode induced diffOf target th qt p = .error e) :
+    ¬ ∃ r, e = .ok r := by
+  unfold docCandidates at h
+  split at h
+  · cases h; rintro ⟨r, hr⟩; cases hr
+  · rename_i fr _
+    refine foldlM_ne _ (fun _ => True) (fun e => ∃ r, e = Outcome.ok r) fr [] ?_ trivial e h
+    intro acc x _ _
+    refine ⟨?_, fun _ _ => trivial⟩
+    intro e' hf
+    simp only at hf
+    split at hf
+    · cases hf; rintro ⟨r, hr⟩; cases hr
+    · split at hf
+      · split at hf
+        · cases hf
+        · cases hf; rintro ⟨r, hr⟩; cases hr
+      · cases hf
+
+theorem candFold_err_not_ok {C : Type} (N : NumEnv C) (crc : Text → Nat) (wordOf : Nat → Text)
+    (isDigitRune : Nat → Bool) (decode : Text → List Nat) (induced : List (Text × List Text))
+    (diffOf : KDoc → Nat → Nat → Option (List (Diff Nat)))
+    (cntT : Nat → Nat) (docs : List PDoc) (target : Array IdTok) (crs : List Nat)
+    (e : Outcome C)
+    (h : candFold N crc wordOf isDigitRune decode induced diffOf cntT docs target crs = .error e) :
+    ¬ ∃ r, e = .ok r := by
+  unfold candFold at h
+  refine foldlM_ne _ (fun _ => True) (fun e => ∃ r, e = Outcome.ok r) _ _ ?_ trivial e h
+  intro acc p _ _
+  refine ⟨?_, fun _ _ => trivial⟩
+  intro e' hf
+  split at hf
+  · cases hf
+  · rename_i e'' hdc
+    cases hf
+    exact docCandidates_err_not_ok _ _ _ _ _ _ _ _ _ _ _ hdc
+
+theorem zip_filterMap_sublist {α : Type} :
+    ∀ (l : List α) (bs : List Bool),
+      ((l.zip bs).filterMap (fun (p : α × Bool) => if p.2 then some p.1 else none)).Sublist l := by
+  intro l
+  induction l with
+  | nil => intro bs; simp
+  | cons x xs ih =>
+    intro bs
+    cases bs with
+    | nil => simp
+    | cons b bs =>
+      rw [List.zip_cons_cons, List.filterMap_cons]
+      cases b with
+      | true => simpa using ih bs
+      | false =>
+        simp only [Bool.false_eq_true, if_false]
+        exact List.Sublist.cons _ (ih bs)
+
+theorem outOf_sublist {C : Type} (N : NumEnv C) (cands : List (Match C)) :
+    (outOf N cands).Sublist (sortBy (matchLess N) cands) :=
+  zip_filterMap_sublist _ _
+
+theorem mem_outOf {C : Type} (N : NumEnv C) (cands : List (Match C)) (m : Match C)
+    (h : m ∈ outOf N cands) : m ∈ cands :=
+  (mem_sortBy _ _ _).1 ((outOf_sublist N cands).subset h)
+
+/-- the possible `.ok` results of the model -/
+theorem matchModel_ok {C : Type} (N : NumEnv C) (crc : Text → Nat) (wordOf : Nat → Text)
+    (isDigitRune : Nat → Bool) (decode : Text → List Nat) (induced : List (Text × List Text))
+    (diffOf : KDoc → Nat → Nat → Option (List (Diff Nat)))
+    (cntT : Nat → Nat) (docs : List PDoc) (target : Array IdTok) (crs : List Nat) (r : Results C)
+    (h : matchModel N crc wordOf isDigitRune decode induced diffOf cntT docs target crs = .ok r) :
+    (r.ms = [] ∧ r.totalInputLines = 0) ∨
+    ∃ cands, candFold N crc wordOf isDigitRune decode induced diffOf cntT docs target crs = .ok cands ∧
+      r.ms = outOf N cands ∧ r.totalInputLines = ((target.back?).map (·.line)).getD 0 := by
+  rw [matchModel_eq] at h
+  split at h
+  · cases h; exact Or.inl ⟨rfl, rfl⟩
+  · split at h
+    · rename_i e he
+      subst h
+      exact absurd ⟨r, rfl⟩ (candFold_err_not_ok _ _ _ _ _ _ _ _ _ _ _ _ he)
+    · rename_i cands hc
+      refine Or.inr ⟨cands, hc, ?_⟩
+      split at h <;> rename_i hb <;> cases h <;> simp [hb]
+
+/-! ### order by confidence -/
+
+theorem gt_negtrans {C : Type} {N : NumEnv C} (laws : NumLaws N) (x y z : C)
+    (h1 : N.gt y x = false) (h2 : N.gt z y = false) : N.gt z x = false := by
+  cases hzx : N.gt z x with
+  | false => rfl
+  | true =>
+    cases hxy : N.gt x y with
+    | true => rw [laws.gt_trans z x y hzx hxy] at h2; cases h2
+    | false =>
+      have := laws.gt_tri x y hxy h1
+      subst this
+      rw [hzx] at h2; cases h2
+
+theorem matchLess_true {C : Type} {N : NumEnv C} (laws : NumLaws N) (x y : Match C)
+    (h : matchLess N x y = true) : N.gt y.conf x.conf = false := by
+  cases hyx : N.gt y.conf x.conf with
+  | false => rfl
+  | true =>
+    unfold matchLess at h
+    rw [if_pos (Or.inr hyx)] at h
+    have := laws.gt_trans _ _ _ h hyx
+    rw [laws.gt_irrefl] at this
+    cases this
+
+theorem matchLess_false {C : Type} {N : NumEnv C} (x y : Match C)
+    (h : matchLess N x y = false) : N.gt x.conf y.conf = false := by
+  cases hxy : N.gt x.conf y.conf with
+  | false => rfl
+  | true =>
+    unfold matchLess at h
+    rw [if_pos (Or.inl hxy)] at h
+    rw [h] at hxy; cases hxy
+
+theorem insertSorted_pairwise {C : Type} {N : NumEnv C} (laws : NumLaws N) (x : Match C) :
+    ∀ l : List (Match C), l.Pairwise (fun a b => N.gt b.conf a.conf = false) →
+      (insertSorted (matchLess N) x l).Pairwise (fun a b => N.gt b.conf a.conf = false) := by
+  intro l
+  induction l with
+  | nil => intro _; simp [insertSorted]
+  | cons y ys ih =>
+    intro hp
+    rw [List.pairwise_cons] at hp
+    unfold insertSorted
+    split
+    · rename_i hl
+      have hyx := matchLess_true laws x y hl
+      refine List.pairwise_cons.2 ⟨?_, List.pairwise_cons.2 hp⟩
+      intro z hz
+      rcases List.mem_cons.1 hz with rfl | hz
+      · exact hyx
+      · exact gt_negtrans laws _ _ _ hyx (hp.1 z hz)
+    · rename_i hl
+      have hl' : matchLess N x y = false := by simpa using hl
+      have hxy := matchLess_false x y hl'
+      refine List.pairwise_cons.2 ⟨?_, ih hp.2⟩
+      intro z hz
+      rcases (mem_insertSorted _ _ _ _).1 hz with rfl | hz
+      · exact hxy
+      · exact hp.1 z hz
+
+theorem sortBy_pairwise {C : Type} {N : NumEnv C} (laws : NumLaws N) (l : List (Match C)) :
+    (sortBy (matchLess N) l).Pairwise (fun a b => N.gt b.conf a.conf = false) := by
+  induction l with
+  | nil => simp [sortBy]
+  | cons x xs ih => rw [sortBy_cons]; exact insertSorted_pairwise laws x _ ih
+
+/-! ### prepare -/
+
+theorem effQ_le (q len : Nat) : effQ q len ≤ len := by
+  unfold effQ; split <;> omega
+
+theorem hashes_length (crc : List UInt8 → Nat) (wordOf : Nat → List UInt8) (q : Nat) (ids : List Nat) :
+    (hashes crc wordOf q ids).length = if q = 0 then 0 else ids.length + 1 - q := by
+  unfold hashes; split <;> simp
+
+theorem mem_lookupIn (sh : List Nat) (cs o : Nat) (h : o ∈ lookupIn sh cs) : o < sh.length := by
+  simp only [lookupIn, List.mem_map, List.mem_filter] at h
+  obtain ⟨⟨x, i⟩, ⟨hm, _⟩, rfl⟩ := h
+  rw [List.mem_zipIdx_iff_getElem?] at hm
+  have := (List.getElem?_eq_some_iff.1 hm).1
+  exact this
+
+/-! ### no panic: range invariant -/
+
+theorem foldl_inv {α β : Type} (f : β → α → β) (Inv : β → Prop) :
+    ∀ (l : List α) (init : β), Inv init → (∀ acc x, x ∈ l → Inv acc → Inv (f acc x)) →
+      Inv (l.foldl f init) := by
+  intro l
+  induction l with
+  | nil => intro init hi _; exact hi
+  | cons x xs ih =>
+    intro init hi hstep
+    rw [List.foldl_cons]
+    exact ih _ (hstep init x List.mem_cons_self hi)
+      (fun acc y hy => hstep acc y (List.mem_cons_of_mem _ hy))
+
+/-- every matched range lies inside the target and starts at a non-negative source offset -/
+def MRInv (size : Nat) (m : MR) : Prop :=
+  0 ≤ m.srcStart ∧ 0 ≤ m.tgtStart ∧ m.tgtStart < (size : Int) ∧ m.tgtEnd ≤ (size : Int)
+
+theorem omUpdate_inv (P : MR → Prop) (k : Int) (f : Option (List MR) → List MR)
+    (hf : ∀ cur, (∀ l, cur = some l → ∀ m ∈ l, P m) → ∀ m ∈ f cur, P m) :
+    ∀ om : List (Int × List MR), (∀ p ∈ om, ∀ m ∈ p.2, P m) →
+      ∀ p ∈ omUpdate om k f, ∀ m ∈ p.2, P m := by
+  intro om
+  induction om with
+  | nil =>
+    intro _ p hp m hm
+    simp only [omUpdate, List.mem_singleton] at hp
+    subst hp
+    exact hf none (by intro l h; cases h) m hm
+  | cons kv rest ih =>
+    intro hom p hp m hm
+    obtain ⟨k', v⟩ := kv
+    unfold omUpdate at hp
+    split at hp
+    · rcases List.mem_cons.1 hp with rfl | hp
+      · refine hf (some v) ?_ m hm
+        intro l hl; cases hl
+        exact hom (k', v) List.mem_cons_self
+      · exact hom p (List.mem_cons_of_mem _ hp) m hm
+    · rcases List.mem_cons.1 hp with rfl | hp
+      · exact hom (k', v) List.mem_cons_self m hm
+      · exact ih (fun p hp => hom p (List.mem_cons_of_mem _ hp)) p hp m hm
+
+theorem joinRangesWith_inv (lookup : Nat → List Nat) (qs : Nat) (th : List Nat) (qt size : Nat)
+    (hth : ∀ i, i < th.length → i + qt ≤ size ∧ i < size) :
+    ∀ p ∈ joinRangesWith lookup qs th qt, ∀ m ∈ p.2, MRInv size m := by
+  unfold joinRangesWith
+  simp only []
+  refine foldl_inv _ (fun (om : List (Int × List MR)) => ∀ p ∈ om, ∀ m ∈ p.2, MRInv size m) _ _ ?_ ?_
+  · intro p hp; cases hp
+  · intro om tv htv hom
+    simp only [List.mem_map] at htv
+    obtain ⟨⟨x, i⟩, hxi, rfl⟩ := htv
+    rw [List.mem_zipIdx_iff_getElem?] at hxi
+    have hi : i < th.length := (List.getElem?_eq_some_iff.1 hxi).1
+    obtain ⟨hi1, hi2⟩ := hth i hi
+    refine foldl_inv _ (fun (om : List (Int × List MR)) => ∀ p ∈ om, ∀ m ∈ p.2, MRInv size m) _ _ ?_ ?_
+    · exact hom
+    · intro om' sv _ hom'
+      apply omUpdate_inv (MRInv size) _ _ _ om' hom'
+      have hnew : MRInv size (MR.mk (sv : Int) ((sv : Int) + qs) (i : Int) ((i : Int) + qt) 0) := by
+        refine ⟨?_, ?_, ?_, ?_⟩ <;> simp only <;> omega
+      intro cur hcur m hm
+      split at hm
+      · rename_i l
+        have hl := hcur l rfl
+        split at hm
+        · rename_i last hlast
+          have hlastmem : last ∈ l := List.mem_of_getLast? hlast
+          split at hm
+          · rcases List.mem_append.1 hm with hm | hm
+            · exact hl m (List.dropLast_subset l hm)
+            · simp only [List.mem_singleton] at hm
+              subst hm
+              obtain ⟨h1, h2, h3, h4⟩ := hl last hlastmem
+              refine ⟨h1, h2, h3, ?_⟩
+              simp only; omega
+          · rcases List.mem_append.1 hm with hm | hm
+            · exact hl m hm
+            · simp only [List.mem_singleton] at hm
+              subst hm; exact hnew
+        · simp only [List.mem_singleton] at hm
+          subst hm; exact hnew
+      · simp only [List.mem_singleton] at hm
+        subst hm; exact hnew
+
+theorem targetMatchedRangesWith_inv (lookup : Nat → List Nat) (qs : Nat) (th : List Nat) (qt size : Nat)
+    (hth : ∀ i, i < th.length → i + qt ≤ size ∧ i < size) :
+    ∀ m ∈ targetMatchedRangesWith lookup qs th qt, MRInv size m := by
+  intro m hm
+  unfold targetMatchedRangesWith at hm
+  simp only [mem_sortBy, List.mem_flatMap, List.mem_map] at hm
+  obtain ⟨p, hp, m', hm', rfl⟩ := hm
+  exact joinRangesWith_inv lookup qs th qt size hth p hp m' hm'
+
+theorem absorb_inv (size : Nat) (em : Int) (m : MR) (hm : MRInv size m) :
+    ∀ cs : List Claim, (∀ c ∈ cs, MRInv size c.m) → ∀ c ∈ (absorb em m cs).1, MRInv size c.m := by
+  intro cs
+  induction cs with
+  | nil => intro _ c hc; simp [absorb] at hc
+  | cons c0 cs ih =>
+    intro hcs c hc
+    have h0 := hcs c0 List.mem_cons_self
+    have hrest : ∀ c ∈ cs, MRInv size c.m := fun c hc => hcs c (List.mem_cons_of_mem _ hc)
+    obtain ⟨a1, a2, a3, a4⟩ := h0
+    obtain ⟨b1, b2, b3, b4⟩ := hm
+    have htail : ∀ c ∈ c0 :: (absorb em m cs).1, MRInv size c.m := by
+      intro c hc
+      rcases List.mem_cons.1 hc with rfl | hc
+      · exact ⟨a1, a2, a3, a4⟩
+      · exact ih hrest c hc
+    unfold absorb at hc
+    simp only at hc
+    split at hc
+    · split at hc
+      · rcases List.mem_cons.1 hc with rfl | hc
+        · exact ⟨a1, a2, a3, a4⟩
+        · exact hrest c hc
+      · split at hc
+        · rcases List.mem_cons.1 hc with rfl | hc
+          · exact ⟨b1, b2, b3, a4⟩
+          · exact hrest c hc
+        · split at hc
+          · rcases List.mem_cons.1 hc with rfl | hc
+            · exact ⟨a1, a2, a3, b4⟩
+            · exact hrest c hc
+          · exact htail c hc
+    · exact htail c hc
+
+theorem mem_zipIdx_fst {α : Type} (l : List α) (p : α × Nat) (h : p ∈ l.zipIdx) : p.1 ∈ l := by
+  obtain ⟨x, i⟩ := p
+  rw [List.mem_zipIdx_iff_getElem?] at h
+  exact List.mem_of_getElem? h
+
+theorem fuseRanges_some {C : Type} (N : NumEnv C) (matched : List MR) (sz : Nat) (runs : List (Nat × Nat))
+    (size : Nat) (hm : ∀ m ∈ matched, MRInv size m) :
+    ∃ fr, fuseRanges N matched sz runs size = some fr ∧ ∀ m ∈ fr, MRInv size m := by
+  unfold fuseRanges
+  simp only []
+  generalize hres : List.foldl _ (some []) matched.zipIdx = res
+  have hinv : ∃ cl, res = some cl ∧ ∀ c ∈ cl, MRInv size c.m := by
+    rw [← hres]
+    refine foldl_inv _ (fun (st : Option (List Claim)) => ∃ cl, st = some cl ∧ ∀ c ∈ cl, MRInv size c.m)
+      _ _ ⟨[], rfl, by simp⟩ ?_
+    rintro st mi hmi ⟨cl, rfl, hcl⟩
+    have hmi1 := hm mi.1 (mem_zipIdx_fst _ _ hmi)
+    obtain ⟨b1, b2, b3, b4⟩ := hmi1
+    simp only []
+    split
+    · exact ⟨cl, rfl, hcl⟩
+    · rename_i off hoff
+      have hofflt : off < (size : Int) := by
+        split at hoff
+        · split at hoff
+          · cases hoff; omega
+          · cases hoff
+        · cases hoff; omega
+      rw [if_neg (by omega)]
+      split
+      · exact ⟨cl, rfl, hcl⟩
+      · have habs := absorb_inv size (N.errMargin sz) mi.1 ⟨b1, b2, b3, b4⟩ cl hcl
+        split
+        · exact ⟨_, rfl, habs⟩
+        · split
+          · refine ⟨_, rfl, ?_⟩
+            intro c hc
+            rcases List.mem_append.1 hc with hc | hc
+            · exact habs c hc
+            · simp only [List.mem_singleton] at hc
+              subst hc; exact ⟨b1, b2, b3, b4⟩
+          · exact ⟨_, rfl, habs⟩
+  obtain ⟨cl, rfl, hcl⟩ := hinv
+  refine ⟨_, rfl, ?_⟩
+  intro m hm'
+  simp only [mem_sortBy, List.mem_map] at hm'
+  obtain ⟨c, hc, rfl⟩ := hm'
+  exact hcl c hc
+
+theorem findPotentialMatches_some {C : Type} (N : NumEnv C) (lookup : Nat → List Nat) (qs srcLen : Nat)
+    (th : List Nat) (qt size : Nat)
+    (hth : ∀ i, i < th.length → i + qt ≤ size ∧ i < size) :
+    ∃ ms, findPotentialMatches N lookup qs srcLen th qt size = some ms ∧ ∀ m ∈ ms, MRInv size m := by
+  unfold findPotentialMatches
+  simp only []
+  split
+  · exact ⟨[], rfl, by simp⟩
+  · split
+    · exact ⟨[], rfl, by simp⟩
+    · obtain ⟨fr, hfr, hinv⟩ := fuseRanges_some N (targetMatchedRangesWith lookup qs th qt) srcLen
+        (detectRuns N (targetMatchedRangesWith lookup qs th qt) size srcLen qs) size
+        (targetMatchedRangesWith_inv lookup qs th qt size hth)
+      rw [hfr]
+      refine ⟨_, rfl, ?_⟩
+      intro m hm
+      exact hinv m (List.takeWhile_subset _ hm)
+
+theorem docCandidates_no_panic {C : Type} (N : NumEnv C) (wordOf : Nat → Text) (isDigitRune : Nat → Bool)
+    (decode : Text → List Nat) (induced : List (Text × List Text))
+    (diffOf : KDoc → Nat → Nat → Option (List (Diff Nat)))
+    (target : Array IdTok) (th : List Nat) (qt : Nat) (p : PDoc)
+    (hth : ∀ i, i < th.length → i + qt ≤ target.size ∧ i < target.size) (e : Outcome C)
+    (h : docCandidates N wordOf isDigitRune decode induced diffOf target th qt p = .error e) :
+    ¬ ∃ w, e = .panic w := by
+  unfold docCandidates at h
+  obtain ⟨fr, hfr, hinv⟩ := findPotentialMatches_some N p.lookup p.qs p.doc.ids.length th qt target.size hth
+  rw [hfr] at h
+  refine foldlM_ne _ (fun _ => True) (fun e => ∃ w, e = Outcome.panic w) fr [] ?_ trivial e h
+  intro acc x hx _
+  refine ⟨?_, fun _ _ => trivial⟩
+  obtain ⟨_, b2, _, b4⟩ := hinv x hx
+  intro e' hf
+  simp only at hf
+  split at hf
+  · cases hf; rintro ⟨r, hr⟩; cases hr
+  · split at hf
+    · rename_i hg
+      split at hf
+      · cases hf
+      · rename_i hb
+        exfalso
+        apply hb
+        have := hg.2
+        refine ⟨by omega, ?_, by omega, ?_⟩
+        · rw [Int.toNat_lt (by omega)]; omega
+        · rw [Int.toNat_lt (by omega)]; omega
+    · cases hf
+
+theorem hashes_bounds (crc : List UInt8 → Nat) (wordOf : Nat → List UInt8) (q : Nat) (ids : List Nat) :
+    ∀ i, i < (hashes crc wordOf (effQ q ids.length) ids).length →
+      i + effQ q ids.length ≤ ids.length ∧ i < ids.length := by
+  intro i hi
+  rw [hashes_length] at hi
+  have := effQ_le q ids.length
+  split at hi <;> omega
+
+theorem candFold_no_panic {C : Type} (N : NumEnv C) (crc : Text → Nat) (wordOf : Nat → Text)
+    (isDigitRune : Nat → Bool) (decode : Text → List Nat) (induced : List (Text × List Text))
+    (diffOf : KDoc → Nat → Nat → Option (List (Diff Nat)))
+    (cntT : Nat → Nat) (docs : List PDoc) (target : Array IdTok) (crs : List Nat)
+    (e : Outcome C)
+    (h : candFold N crc wordOf isDigitRune decode induced diffOf cntT docs target crs = .error e) :
+    ¬ ∃ w, e = .panic w := by
+  unfold candFold at h
+  refine foldlM_ne _ (fun _ => True) (fun e => ∃ w, e = Outcome.panic w) _ _ ?_ trivial e h
+  intro acc p _ _
+  refine ⟨?_, fun _ _ => trivial⟩
+  intro e' hf
+  split at hf
+  · cases hf
+  · rename_i e'' hdc
+    cases hf
+    refine docCandidates_no_panic _ _ _ _ _ _ _ _ _ _ ?_ _ hdc
+    have hb := hashes_bounds crc wordOf N.q (target.toList.map (·.id))
+    simpa using hb
+
+end LC.V2Match.WFP
+
 namespace LC.V2Match
+open LC.Score WFP
+
+theorem match_wellformed' {C : Type} (N : NumEnv C)
+    (crc : Text → Nat) (wordOf : Nat → Text) (isDigitRune : Nat → Bool) (decode : Text → List Nat)
+    (induced : List (Text × List Text)) (diffOf : KDoc → Nat → Nat → Option (List (LC.Score.Diff Nat)))
+    (cntT : Nat → Nat) (docs : List PDoc) (target : Array IdTok) (crs : List Nat) (r : Results C)
+    (h : matchModel N crc wordOf isDigitRune decode induced diffOf cntT docs target crs = .ok r) :
+    ∀ m ∈ r.ms, WFMatch N docs target crs m := by
+  rcases matchModel_ok _ _ _ _ _ _ _ _ _ _ _ _ h with ⟨h1, _⟩ | ⟨cands, hc, h1, _⟩
+  · rw [h1]; simp
+  · rw [h1]
+    intro m hm
+    exact candFold_ok _ _ _ _ _ _ _ _ _ _ _ _ hc m (mem_outOf N cands m hm)
+
+theorem match_sorted' {C : Type} (N : NumEnv C) (laws : NumLaws N)
+    (crc : Text → Nat) (wordOf : Nat → Text) (isDigitRune : Nat → Bool) (decode : Text → List Nat)
+    (induced : List (Text × List Text)) (diffOf : KDoc → Nat → Nat → Option (List (LC.Score.Diff Nat)))
+    (cntT : Nat → Nat) (docs : List PDoc) (target : Array IdTok) (crs : List Nat) (r : Results C)
+    (h : matchModel N crc wordOf isDigitRune decode induced diffOf cntT docs target crs = .ok r) :
+    r.ms.Pairwise (fun a b => N.gt b.conf a.conf = false) := by
+  rcases matchModel_ok _ _ _ _ _ _ _ _ _ _ _ _ h with ⟨h1, _⟩ | ⟨cands, _, h1, _⟩
+  · rw [h1]; exact List.Pairwise.nil
+  · rw [h1]
+    exact (sortBy_pairwise laws cands).sublist (outOf_sublist N cands)
+
+theorem match_total_lines' {C : Type} (N : NumEnv C)
+    (crc : Text → Nat) (wordOf : Nat → Text) (isDigitRune : Nat → Bool) (decode : Text → List Nat)
+    (induced : List (Text × List Text)) (diffOf : KDoc → Nat → Nat → Option (List (LC.Score.Diff Nat)))
+    (cntT : Nat → Nat) (docs : List PDoc) (target : Array IdTok) (crs : List Nat) (r : Results C)
+    (h : matchModel N crc wordOf isDigitRune decode induced diffOf cntT docs target crs = .ok r) :
+    (r.ms = [] ∧ r.totalInputLines = 0) ∨ r.totalInputLines = ((target.back?).map (·.line)).getD 0 := by
+  rcases matchModel_ok _ _ _ _ _ _ _ _ _ _ _ _ h with h1 | ⟨_, _, _, h2⟩
+  · exact Or.inl h1
+  · exact Or.inr h2
+
+theorem prepare_wf' (crc : Text → Nat) (wordOf : Nat → Text) (q : Nat) (d : KDoc) :
+    (prepare crc wordOf q d).WF := by
+  intro cs o ho
+  simp only [prepare] at ho ⊢
+  have h1 := mem_lookupIn _ _ _ ho
+  rw [hashes_length] at h1
+  have h2 := effQ_le q d.ids.length
+  split at h1
+  · omega
+  · omega
+
+
+theorem match_no_panic' {C : Type} (N : NumEnv C)
+    (crc : Text → Nat) (wordOf : Nat → Text) (isDigitRune : Nat → Bool) (decode : Text → List Nat)
+    (induced : List (Text × List Text)) (diffOf : KDoc → Nat → Nat → Option (List (LC.Score.Diff Nat)))
+    (cntT : Nat → Nat) (docs : List PDoc) (_hwf : ∀ p ∈ docs, p.WF) (target : Array IdTok) (crs : List Nat)
+    (w : String) :
+    matchModel N crc wordOf isDigitRune decode induced diffOf cntT docs target crs ≠ .panic w := by
+  intro h
+  rw [matchModel_eq] at h
+  split at h
+  · cases h
+  · split at h
+    · rename_i e he
+      subst h
+      exact candFold_no_panic _ _ _ _ _ _ _ _ _ _ _ _ he ⟨w, rfl⟩
+    · split at h <;> cases h
+
 end LC.V2Match
